@@ -371,7 +371,7 @@ def generate():
             out.append(thunk())
         except Unsupported as exc:
             errors.append('%s: %s' % (names[0], exc))
-            why = str(exc).replace('(*', '( *').replace('*)', '* )')
+            why = str(exc).replace('(*', '( *').replace('*)', '* )').replace('"', "'")
             out.extend('(* NOT TRANSLATED: %s *)\nDefinition %s : unit := tt.\n' % (why, n) for n in names)
 
     for n in RESERVED - {'self', 'original', 'open'}:      # the names the rules interpret mean what they say
@@ -382,6 +382,12 @@ def generate():
                 or sum(isinstance(x, ast.Name) and x.id == n and not isinstance(x.ctx, ast.Load) for x in ast.walk(tree)) \
                 or any(isinstance(x, ast.arg) and x.arg == n for x in ast.walk(tree)):
             raise Unsupported('import of ' + n)
+
+    for n in ('open', 'UnicodeDecodeError', 'NotImplementedError'):      # builtins the rules interpret: never rebound in the module
+        if any((isinstance(x, ast.Name) and x.id == n and not isinstance(x.ctx, ast.Load)) or (isinstance(x, ast.arg) and x.arg == n)
+               or (isinstance(x, ast.alias) and (x.asname or x.name) == n) for x in ast.walk(tree)) \
+                or any(isinstance(x, (ast.FunctionDef, ast.ClassDef)) and x.name == n for x in tree.body):
+            raise Unsupported('builtin %s is rebound' % n)
 
     def regex_job(name, body, where, method):
         def thunk():
@@ -454,7 +460,7 @@ def main(emit):
         text, errors = generate()
     except Exception as exc:
         # fail closed: the file below compiles (so its .vo is replaced) but defines none of the functions
-        why = ('%s: %s' % (type(exc).__name__, exc)).replace('(*', '( *').replace('*)', '* )')
+        why = ('%s: %s' % (type(exc).__name__, exc)).replace('(*', '( *').replace('*)', '* )').replace('"', "'")
         emit('PolibSrc.v', '(* TRANSLATION FAILED: %s *)\nDefinition polib_source_translation_failed := tt.\n' % why)
         raise
     emit('PolibSrc.v', text)
